@@ -336,7 +336,10 @@ def r02_4(ctx: Ctx):
 
 
 # ----------------------------------------------------------------------------
-def r02_1(ctx: Ctx):
+def r02_1(ctx: Ctx, coordinate_fixed: bool = True):
+    """coordinate_fixed=False (re-runs under C05 / C06): the first trial must be wired correctly - one evaluation of
+    an item built in the seeding routine whose point is the evolvent image of its own coordinate, between the end
+    points 0 and 1 - but its coordinate need not be 1/2 (that clause belongs to C02 alone)."""
     rid = 'R02.1'
     ctx.rule(rid, 'seed: exactly one item is evaluated, built as Item(Point(GetImage(t)), t) with t = 1/2; the '
                   'other two items have t = 0 and 1 and are never evaluated')
@@ -376,9 +379,10 @@ def r02_1(ctx: Ctx):
                          key=f'{rid}::{sd.short}::seed-item'):
             continue
         t, img_t, ne = ts[key_of(item)]
-        ok = isinstance(t, RF) and t.const_value() == Fraction(1, 2)
-        ctx.check(ok, rid, sd.short, sd.loc(ne.node), 'first trial has curve coordinate 1/2',
-                  f'first trial has curve coordinate {C.fmt(t)} instead of 1/2', key=f'{rid}::{sd.short}::t-half')
+        if coordinate_fixed:
+            ok = isinstance(t, RF) and t.const_value() == Fraction(1, 2)
+            ctx.check(ok, rid, sd.short, sd.loc(ne.node), 'first trial has curve coordinate 1/2',
+                      f'first trial has curve coordinate {C.fmt(t)} instead of 1/2', key=f'{rid}::{sd.short}::t-half')
         ok2 = isinstance(img_t, RF) and isinstance(t, RF) and img_t.equals(t)
         ctx.check(ok2, rid, sd.short, sd.loc(ne.node), 'first trial point is the evolvent image of its coordinate',
                   f'first trial point is GetImage({C.fmt(img_t)}) but its coordinate is {C.fmt(t)}',
@@ -879,7 +883,7 @@ def check(ctx: Ctx):
     if C.want(ctx, 'R02.9'):
         r02_9(ctx)
     if C.want(ctx, 'R02.3'):
-        r02_3_no_reset(ctx)
+        r02_3_no_reset(ctx.full_view())
     for rid, fn in (('R02.1', r02_1), ('R02.2', r02_2), ('R02.3', r02_3), ('R02.4', r02_4), ('R02.5', r02_5),
                     ('R02.6', r02_6), ('R02.7', r02_7_8)):
         if C.want(ctx, rid) or (rid == 'R02.7' and C.want(ctx, 'R02.8')):
